@@ -149,7 +149,11 @@ func (aux *Aux) LoadForm() slip.Object {
 		sll := make(slip.List, len(method.Doc.Args))
 		for i, da := range method.Doc.Args {
 			if i < aux.reqCnt {
-				sll[i] = slip.List{slip.Symbol(da.Name), slip.Symbol(da.Type)}
+				if 0 < len(da.Type) {
+					sll[i] = slip.List{slip.Symbol(da.Name), slip.Symbol(da.Type)}
+				} else {
+					sll[i] = slip.Symbol(da.Name)
+				}
 			} else {
 				if da.Name[0] == '&' || da.Default == nil {
 					sll[i] = slip.Symbol(da.Name)
